@@ -201,8 +201,42 @@ theorem readUnit?_secPart (u : Char) (hS : 'S' ≠ u) (hdot : '.' ≠ u) (s f : 
     · exact readUnit?_stops u rfl
     · exact readUnit?_other u 'S' (by decide) hS s _
 
+theorem readSecs?_nonempty (base : Nat) (r4 : Str) (h : r4 ≠ []) : readSecs? base r4 =
+    if (spanDigits r4).1.isEmpty then none
+    else match (spanDigits r4).2 with
+      | ['S'] => some (base + digitsVal (spanDigits r4).1 0 * 1000000)
+      | '.' :: r6 =>
+        if (spanDigits r6).2 == ['S'] && !(spanDigits r6).1.isEmpty && (spanDigits r6).1.length ≤ 6 then
+          some (base + digitsVal (spanDigits r4).1 0 * 1000000 + fracMicros (spanDigits r6).1)
+        else none
+      | _ => none := by
+  cases r4 with
+  | nil => exact absurd rfl h
+  | cons c cs => rfl
+
+
+theorem readSecs?_whole (base : Nat) (sd : Str) (hsd : ∀ c ∈ sd, isDigit c = true) (hne : sd ≠ []) :
+    readSecs? base (sd ++ ['S']) = some (base + digitsVal sd 0 * 1000000) := by
+  have hsp : spanDigits (sd ++ ['S']) = (sd, ['S']) := spanDigits_append hsd rfl
+  have hne' : sd ++ ['S'] ≠ [] := by simp
+  rw [readSecs?_nonempty _ _ hne', hsp]
+  simp only [List.isEmpty_iff, hne, if_false]
+
+theorem readSecs?_frac (base : Nat) (sd fd : Str) (hsd : ∀ c ∈ sd, isDigit c = true) (hne : sd ≠ [])
+    (hfd : ∀ c ∈ fd, isDigit c = true) (hfne : fd ≠ []) (hfl : fd.length ≤ 6) :
+    readSecs? base (sd ++ '.' :: (fd ++ ['S'])) = some (base + digitsVal sd 0 * 1000000 + fracMicros fd) := by
+  have hsp : spanDigits (sd ++ '.' :: (fd ++ ['S'])) = (sd, '.' :: (fd ++ ['S'])) := spanDigits_append hsd rfl
+  have hsp2 : spanDigits (fd ++ ['S']) = (fd, ['S']) := spanDigits_append hfd rfl
+  have hne' : sd ++ '.' :: (fd ++ ['S']) ≠ [] := by simp
+  rw [readSecs?_nonempty _ _ hne', hsp]
+  simp only [List.isEmpty_iff, hne, if_false, hsp2, beq_self_eq_true, hfl, decide_true]
+  simp [hfne]
+
 theorem readSecs?_secPart (base s f : Nat) (hf : f < 1000000) :
     readSecs? base (secPart s f) = some (base + s * 1000000 + f) := by
+  have hl : (pad 6 f).length = 6 := pad_length (by decide) (by simpa using hf)
+  have hpne : pad 6 f ≠ [] := by
+    intro h; rw [h] at hl; cases hl
   unfold secPart
   by_cases hf0 : f = 0
   · subst hf0
@@ -210,28 +244,11 @@ theorem readSecs?_secPart (base s f : Nat) (hf : f < 1000000) :
     · subst hs0; simp [readSecs?]
     · have : (s == 0) = false := by simpa using hs0
       simp only [bne_self_eq_false, Bool.false_eq_true, if_false, this]
-      obtain ⟨c, cs, hcs, _, _⟩ := natStr_cons s
-      have hsp : spanDigits (natStr s ++ ['S']) = (natStr s, ['S']) := spanDigits_natStr s rfl
-      have hne : natStr s ++ ['S'] ≠ [] := by simp
-      unfold readSecs?
-      split
-      · contradiction
-      · simp [hsp, natStr_ne_nil, digitsVal_natStr]
+      rw [readSecs?_whole base (natStr s) (fun _ hc => isDigit_of_mem_natStr hc) (natStr_ne_nil s), digitsVal_natStr, Nat.add_zero]
   · have : (f != 0) = true := by simpa using hf0
-    simp only [this, if_true]
-    have hsp : spanDigits (natStr s ++ '.' :: (pad 6 f ++ ['S'])) = (natStr s, '.' :: (pad 6 f ++ ['S'])) :=
-      spanDigits_natStr s rfl
-    have hsp2 : spanDigits (pad 6 f ++ ['S']) = (pad 6 f, ['S']) :=
-      spanDigits_append (fun _ hc => isDigit_of_mem_pad hc) rfl
-    have hl : (pad 6 f).length = 6 := pad_length (by decide) (by simpa using hf)
-    have hpne : pad 6 f ≠ [] := by
-      intro h; rw [h] at hl; cases hl
-    have hne : natStr s ++ '.' :: (pad 6 f ++ ['S']) ≠ [] := by simp
-    simp only [List.append_assoc, List.cons_append]
-    unfold readSecs?
-    split
-    · contradiction
-    · simp [hsp, hsp2, natStr_ne_nil, digitsVal_natStr, hl, hpne, fracMicros_pad6 hf]
+    simp only [this, if_true, List.append_assoc, List.cons_append]
+    rw [readSecs?_frac base (natStr s) (pad 6 f) (fun _ hc => isDigit_of_mem_natStr hc) (natStr_ne_nil s)
+      (fun _ hc => isDigit_of_mem_pad hc) hpne (by omega), digitsVal_natStr, fracMicros_pad6 hf]
 
 /-- The duration text assembled from its components. -/
 def durParts (d h m s f : Nat) : Str :=
@@ -295,13 +312,11 @@ theorem readDurMag?_durParts (d h m s f : Nat) (hf : f < 1000000) :
     simp only [List.append_assoc] at h1 h2 ⊢
     rw [h1]
     simp only [h2, h4, readSecs?_secPart _ s f hf]
-    congr 1
-    omega
+    exact congrArg some (by omega)
 
 theorem durmag_rt (n : Nat) : readDurMag? (durMagText n) = some n := by
   rw [durMagText_eq_durParts, readDurMag?_durParts _ _ _ _ _ (Nat.mod_lt _ (by decide))]
-  congr 1
-  omega
+  exact congrArg some (by omega)
 
 theorem durMagText_head (n : Nat) : ∃ r, durMagText n = 'P' :: r := by
   rw [durMagText_eq_durParts]
@@ -330,15 +345,13 @@ theorem duration_rt (us : Int) : readDur? (durText us) = some us := by
     have h := durmag_rt us.natAbs
     rw [hr] at h ⊢
     simp only [readDur?, List.drop_succ_cons, List.drop_zero, h]
-    congr 1
-    omega
+    exact congrArg some (by omega)
   · rename_i hpos
     obtain ⟨r, hr⟩ := durMagText_head us.toNat
     have h := durmag_rt us.toNat
     rw [hr] at h ⊢
     simp only [readDur?, h]
-    congr 1
-    omega
+    exact congrArg some (by omega)
 
 theorem parseTemporal?_of_readDur {s : Str} {us : Int} (h : readDur? s = some us) :
     parseTemporal? s = some (.duration us) := by
@@ -369,5 +382,624 @@ theorem parseTemporal_dur (us : Int) : parseTemporal? (durText us) = some (.dura
 theorem umTimedelta_rt {us : Int} (h : tdOk us = true) :
     umTimedelta (.str (durText us)) = .ok (.timedelta us) := by
   simp [umTimedelta, secondsOf?, textOf?, parseTemporal_dur, h]
+
+/-! ### An independent recogniser of ISO-8601 durations
+
+`-?P(nD)?(T(nH)?(nM)?(n(.f{1,6})?S)?)?` with the two side conditions of ISO 8601: at least one
+component is present, and a `T` is followed by at least one time component.  Written with
+`dropWhile`/`takeWhile`, independently of `readDurMag?`/`spanDigits`. -/
+
+/-- One or more ASCII digits; returns what follows. -/
+def eatDigits1? : Str → Option Str
+  | c :: r => if isDigit c then some (r.dropWhile isDigit) else none
+  | [] => none
+
+/-- `n<u>`: digits, then the designator `u`. -/
+def eatComp? (u : Char) (s : Str) : Option Str :=
+  match eatDigits1? s with
+  | some (c :: r) => if c == u then some r else none
+  | _ => none
+
+/-- `n[.f{1,6}]S`. -/
+def eatSec? (s : Str) : Option Str :=
+  match eatDigits1? s with
+  | some ('S' :: r) => some r
+  | some ('.' :: r) =>
+    match r.dropWhile isDigit with
+    | 'S' :: r' =>
+      if 1 ≤ (r.takeWhile isDigit).length && (r.takeWhile isDigit).length ≤ 6 then some r' else none
+    | _ => none
+  | _ => none
+
+/-- An optional element: the rest, and whether it was present. -/
+def optEat (f : Str → Option Str) (s : Str) : Str × Bool :=
+  match f s with
+  | some r => (r, true)
+  | none => (s, false)
+
+def isoDurMag (s : Str) : Bool :=
+  match s with
+  | 'P' :: r0 =>
+    match (optEat (eatComp? 'D') r0).1 with
+    | [] => (optEat (eatComp? 'D') r0).2
+    | 'T' :: r2 =>
+      let eH := optEat (eatComp? 'H') r2
+      let eM := optEat (eatComp? 'M') eH.1
+      let eS := optEat eatSec? eM.1
+      eS.1.isEmpty && (eH.2 || eM.2 || eS.2)
+    | _ => false
+  | _ => false
+
+/-- Strict ISO-8601(-2) duration text, optionally signed. -/
+def isoDuration (s : Str) : Bool :=
+  match s with
+  | '-' :: r => isoDurMag r
+  | _ => isoDurMag s
+
+theorem eatDigits1?_append {ds rest : Str} (hd : ∀ c ∈ ds, isDigit c = true) (hne : ds ≠ [])
+    (hr : stops rest = true) : eatDigits1? (ds ++ rest) = some rest := by
+  cases ds with
+  | nil => exact absurd rfl hne
+  | cons c cs =>
+    have hc : isDigit c = true := hd c (by simp)
+    have := dropWhile_digits_append (ds := cs) (rest := rest) (fun d hd' => hd d (by simp [hd'])) hr
+    simp [eatDigits1?, hc, this]
+
+theorem eatDigits1?_stops {s : Str} (h : stops s = true) : eatDigits1? s = none := by
+  cases s with
+  | nil => rfl
+  | cons c cs =>
+    simp only [stops, Bool.not_eq_true'] at h
+    simp [eatDigits1?, h]
+
+theorem eatComp?_natStr (u : Char) (hu : isDigit u = false) (n : Nat) (rest : Str) :
+    eatComp? u (natStr n ++ u :: rest) = some rest := by
+  have hs : stops (u :: rest) = true := by simp [stops, hu]
+  have := eatDigits1?_append (ds := natStr n) (rest := u :: rest) (fun _ hc => isDigit_of_mem_natStr hc)
+    (natStr_ne_nil n) hs
+  simp [eatComp?, this]
+
+theorem eatComp?_stops (u : Char) {s : Str} (h : stops s = true) : eatComp? u s = none := by
+  simp [eatComp?, eatDigits1?_stops h]
+
+theorem eatComp?_other (u c : Char) (hc : isDigit c = false) (hne : c ≠ u) (n : Nat) (rest : Str) :
+    eatComp? u (natStr n ++ c :: rest) = none := by
+  have hs : stops (c :: rest) = true := by simp [stops, hc]
+  have := eatDigits1?_append (ds := natStr n) (rest := c :: rest) (fun _ hc => isDigit_of_mem_natStr hc)
+    (natStr_ne_nil n) hs
+  simp [eatComp?, this, hne]
+
+theorem optEat_unitPart (u : Char) (hu : isDigit u = false) (n : Nat) (rest : Str)
+    (hrest : eatComp? u rest = none) : optEat (eatComp? u) (unitPart u n ++ rest) = (rest, n != 0) := by
+  unfold unitPart
+  by_cases h : n = 0
+  · subst h
+    simp [optEat, hrest]
+  · have : (n == 0) = false := by simpa using h
+    simp only [this, Bool.false_eq_true, if_false, List.append_assoc, List.cons_append, List.nil_append]
+    simp [optEat, eatComp?_natStr u hu, h]
+
+theorem eatComp?_unitPart_other (u c : Char) (hc : isDigit c = false) (hne : c ≠ u) (n : Nat) (rest : Str)
+    (hrest : eatComp? u rest = none) : eatComp? u (unitPart c n ++ rest) = none := by
+  unfold unitPart
+  by_cases h : n = 0
+  · subst h; simpa using hrest
+  · have : (n == 0) = false := by simpa using h
+    simp only [this, Bool.false_eq_true, if_false, List.append_assoc, List.cons_append, List.nil_append]
+    exact eatComp?_other u c hc hne n rest
+
+theorem eatComp?_secPart (u : Char) (hS : 'S' ≠ u) (hdot : '.' ≠ u) (s f : Nat) : eatComp? u (secPart s f) = none := by
+  unfold secPart
+  split
+  · simp only [List.append_assoc, List.cons_append]
+    exact eatComp?_other u '.' (by decide) hdot s _
+  · split
+    · exact eatComp?_stops u rfl
+    · exact eatComp?_other u 'S' (by decide) hS s _
+
+theorem eatSec?_whole (sd : Str) (hsd : ∀ c ∈ sd, isDigit c = true) (hne : sd ≠ []) :
+    eatSec? (sd ++ ['S']) = some [] := by
+  have := eatDigits1?_append (ds := sd) (rest := ['S']) hsd hne rfl
+  simp [eatSec?, this]
+
+theorem takeWhile_digits_append {ds rest : Str} (hd : ∀ c ∈ ds, isDigit c = true) (hr : stops rest = true) :
+    (ds ++ rest).takeWhile isDigit = ds := by
+  induction ds with
+  | nil =>
+    cases rest with
+    | nil => rfl
+    | cons c cs =>
+      simp only [stops, Bool.not_eq_true'] at hr
+      simp [hr]
+  | cons c cs ih =>
+    have hc : isDigit c = true := hd c (by simp)
+    have := ih (fun d hd' => hd d (by simp [hd']))
+    simp [hc, this]
+
+theorem eatSec?_frac (sd fd : Str) (hsd : ∀ c ∈ sd, isDigit c = true) (hne : sd ≠ [])
+    (hfd : ∀ c ∈ fd, isDigit c = true) (hfne : fd ≠ []) (hfl : fd.length ≤ 6) :
+    eatSec? (sd ++ '.' :: (fd ++ ['S'])) = some [] := by
+  have h1 := eatDigits1?_append (ds := sd) (rest := '.' :: (fd ++ ['S'])) hsd hne rfl
+  have h2 := dropWhile_digits_append (ds := fd) (rest := ['S']) hfd rfl
+  have h3 := takeWhile_digits_append (ds := fd) (rest := ['S']) hfd rfl
+  have h4 : 1 ≤ fd.length := by
+    cases fd with
+    | nil => exact absurd rfl hfne
+    | cons _ _ => simp
+  simp [eatSec?, h1, h2, h3, h4, hfl]
+
+theorem optEat_secPart (s f : Nat) (hf : f < 1000000) :
+    optEat eatSec? (secPart s f) = ([], s != 0 || f != 0) := by
+  have hl : (pad 6 f).length = 6 := pad_length (by decide) (by simpa using hf)
+  have hpne : pad 6 f ≠ [] := by
+    intro h; rw [h] at hl; cases hl
+  unfold secPart
+  by_cases hf0 : f = 0
+  · subst hf0
+    by_cases hs0 : s = 0
+    · subst hs0; simp [optEat, eatSec?, eatDigits1?]
+    · have : (s == 0) = false := by simpa using hs0
+      simp only [bne_self_eq_false, Bool.false_eq_true, if_false, this]
+      simp only [optEat, eatSec?_whole (natStr s) (fun _ hc => isDigit_of_mem_natStr hc) (natStr_ne_nil s)]
+      simp [hs0]
+  · have : (f != 0) = true := by simpa using hf0
+    simp only [this, if_true, List.append_assoc, List.cons_append]
+    simp only [optEat, eatSec?_frac (natStr s) (pad 6 f) (fun _ hc => isDigit_of_mem_natStr hc) (natStr_ne_nil s)
+      (fun _ hc => isDigit_of_mem_pad hc) hpne (by omega)]
+    simp
+
+theorem isEmpty_append' (a b : Str) : (a ++ b).isEmpty = (a.isEmpty && b.isEmpty) := by
+  cases a <;> simp
+
+theorem isoDurMag_durParts (d h m s f : Nat) (hf : f < 1000000)
+    (hnz : ¬(d = 0 ∧ h = 0 ∧ m = 0 ∧ s = 0 ∧ f = 0)) : isoDurMag (durParts d h m s f) = true := by
+  have hH0 : ∀ n, (unitPart 'H' n).isEmpty = (n == 0) := by
+    intro n; unfold unitPart; by_cases h0 : n = 0
+    · subst h0; rfl
+    · have : (n == 0) = false := by simpa using h0
+      simp [this, natStr_ne_nil]
+  have hM0 : ∀ n, (unitPart 'M' n).isEmpty = (n == 0) := by
+    intro n; unfold unitPart; by_cases h0 : n = 0
+    · subst h0; rfl
+    · have : (n == 0) = false := by simpa using h0
+      simp [this, natStr_ne_nil]
+  have hD0 : ∀ n, (unitPart 'D' n).isEmpty = (n == 0) := by
+    intro n; unfold unitPart; by_cases h0 : n = 0
+    · subst h0; rfl
+    · have : (n == 0) = false := by simpa using h0
+      simp [this, natStr_ne_nil]
+  have hS0 : (secPart s f).isEmpty = (s == 0 && f == 0) := by
+    unfold secPart
+    by_cases hf0 : f = 0
+    · subst hf0
+      by_cases hs0 : s = 0
+      · subst hs0; rfl
+      · have : (s == 0) = false := by simpa using hs0
+        simp [this, natStr_ne_nil]
+    · have h1 : (f != 0) = true := by simpa using hf0
+      have h2 : (f == 0) = false := by simpa using hf0
+      simp [h1, h2, natStr_ne_nil]
+  unfold durParts
+  simp only [isEmpty_append', hH0, hM0, hD0, hS0]
+  split
+  · rename_i hc
+    have h1 := optEat_unitPart 'D' (by decide) d [] (by rfl)
+    simp only [List.append_nil] at h1
+    simp only [isoDurMag, h1]
+    simp only [Bool.and_eq_true, Bool.not_eq_true', beq_eq_false_iff_ne] at hc
+    simpa using hc.2
+  · rename_i hc
+    rw [List.cons_append]
+    have h1 := optEat_unitPart 'D' (by decide) d ('T' :: (unitPart 'H' h ++ unitPart 'M' m ++ secPart s f))
+      (eatComp?_stops 'D' rfl)
+    have h3 : eatComp? 'H' (unitPart 'M' m ++ secPart s f) = none :=
+      eatComp?_unitPart_other 'H' 'M' (by decide) (by decide) m _ (eatComp?_secPart 'H' (by decide) (by decide) s f)
+    have h2 := optEat_unitPart 'H' (by decide) h (unitPart 'M' m ++ secPart s f) h3
+    have h4 := optEat_unitPart 'M' (by decide) m (secPart s f) (eatComp?_secPart 'M' (by decide) (by decide) s f)
+    simp only [List.append_assoc] at h1 h2 ⊢
+    simp only [isoDurMag, h1, h2, h4, optEat_secPart s f hf, List.isEmpty_nil, Bool.true_and]
+    simp only [Bool.and_eq_true, Bool.not_eq_true', beq_iff_eq, beq_eq_false_iff_ne, not_and, Classical.not_not] at hc
+    simp only [Bool.or_eq_true, bne_iff_ne, ne_eq]
+    by_cases hh : h = 0
+    · by_cases hm : m = 0
+      · by_cases hs : s = 0
+        · by_cases hf0 : f = 0
+          · exact absurd ⟨hc ⟨⟨hh, hm⟩, hs, hf0⟩, hh, hm, hs, hf0⟩ hnz
+          · exact Or.inr (Or.inr hf0)
+        · exact Or.inr (Or.inl hs)
+      · exact Or.inl (Or.inr hm)
+    · exact Or.inl (Or.inl hh)
+
+theorem isoDurMag_durMagText {n : Nat} (h : n ≠ 0) : isoDurMag (durMagText n) = true := by
+  rw [durMagText_eq_durParts]
+  apply isoDurMag_durParts _ _ _ _ _ (Nat.mod_lt _ (by decide))
+  omega
+
+theorem isoDuration_durText {us : Int} (h : us ≠ 0) : isoDuration (durText us) = true := by
+  unfold durText
+  split
+  · exact isoDurMag_durMagText (n := us.natAbs) (by omega)
+  · obtain ⟨r, hr⟩ := durMagText_head us.toNat
+    have := isoDurMag_durMagText (n := us.toNat) (by omega)
+    rw [hr] at this ⊢
+    simpa [isoDuration] using this
+
+/-! ### Time of day and UTC offset -/
+
+/-- What may follow a time of day whose fraction is absent: nothing, or neither a digit nor a dot. -/
+def tailOk : Str → Bool
+  | [] => true
+  | c :: _ => !isDigit c && c != '.'
+
+theorem tailOk_stops {r : Str} (h : tailOk r = true) : stops r = true := by
+  cases r with
+  | nil => rfl
+  | cons c cs =>
+    simp only [tailOk, Bool.and_eq_true] at h
+    simpa [stops] using h.1
+
+theorem readTod?_whole {h mi se : Nat} (hh : h < 24) (hmi : mi < 60) (hse : se < 60) (r3 : Str)
+    (hr : tailOk r3 = true) :
+    readTod? (pad 2 h ++ ':' :: (pad 2 mi ++ ':' :: (pad 2 se ++ r3)))
+      = some ((h * 3600 + mi * 60 + se) * 1000000, r3) := by
+  simp only [readTod?, take2?_pad2 (by omega : h < 100), take2?_pad2 (by omega : mi < 100),
+    take2?_pad2 (by omega : se < 100), hh, hmi, hse, decide_true, Bool.and_self, if_true]
+  cases r3 with
+  | nil => rfl
+  | cons c cs =>
+    simp only [tailOk, Bool.and_eq_true, bne_iff_ne, ne_eq] at hr
+    split
+    · rename_i heq
+      injection heq with h1 h2
+      exact absurd h1 hr.2
+    · rfl
+
+theorem readTod?_frac {h mi se : Nat} (hh : h < 24) (hmi : mi < 60) (hse : se < 60) (fd r5 : Str)
+    (hfd : ∀ c ∈ fd, isDigit c = true) (hne : fd ≠ []) (hl : fd.length ≤ 6) (hr : stops r5 = true) :
+    readTod? (pad 2 h ++ ':' :: (pad 2 mi ++ ':' :: (pad 2 se ++ '.' :: (fd ++ r5))))
+      = some ((h * 3600 + mi * 60 + se) * 1000000 + fracMicros fd, r5) := by
+  have hsp : spanDigits (fd ++ r5) = (fd, r5) := spanDigits_append hfd hr
+  have hl' : ¬ (6 < fd.length) := by omega
+  simp only [readTod?, take2?_pad2 (by omega : h < 100), take2?_pad2 (by omega : mi < 100),
+    take2?_pad2 (by omega : se < 100), hh, hmi, hse, decide_true, Bool.and_self, if_true, hsp]
+  simp [hne, hl']
+
+theorem readTod?_todText {us : Nat} (h : us < 86400000000) (rest : Str) (hr : tailOk rest = true) :
+    readTod? (todText us ++ rest) = some (us, rest) := by
+  have h1 : us / 1000000 / 3600 < 24 := by omega
+  have h2 : us / 1000000 / 60 % 60 < 60 := by omega
+  have h3 : us / 1000000 % 60 < 60 := by omega
+  unfold todText
+  by_cases hm : us % 1000000 = 0
+  · have : (us % 1000000 == 0) = true := by simpa using hm
+    simp only [this, if_true, List.append_assoc, List.cons_append]
+    rw [readTod?_whole h1 h2 h3 rest hr]
+    exact congrArg some (Prod.ext (by simp only; omega) rfl)
+  · have : (us % 1000000 == 0) = false := by simpa using hm
+    have hlt : us % 1000000 < 1000000 := Nat.mod_lt _ (by decide)
+    have hl : (pad 6 (us % 1000000)).length = 6 := pad_length (by decide) (by simpa using hlt)
+    have hpne : pad 6 (us % 1000000) ≠ [] := by
+      intro h; rw [h] at hl; cases hl
+    simp only [this, Bool.false_eq_true, if_false, List.append_assoc, List.cons_append]
+    rw [readTod?_frac h1 h2 h3 (pad 6 (us % 1000000)) rest (fun _ hc => isDigit_of_mem_pad hc) hpne (by omega)
+      (tailOk_stops hr), fracMicros_pad6 hlt]
+    exact congrArg some (Prod.ext (by simp only; omega) rfl)
+
+theorem todText_shape {us : Nat} (h : us < 86400000000) :
+    ∃ a b tl, isDigit a = true ∧ isDigit b = true ∧ todText us = a :: b :: ':' :: tl := by
+  have h1 : us / 1000000 / 3600 < 100 := by omega
+  have hq : us / 1000000 / 3600 / 10 < 10 := by omega
+  have hr : us / 1000000 / 3600 % 10 < 10 := by omega
+  unfold todText
+  simp only [pad2_eq h1]
+  split
+  · exact ⟨_, _, _, isDigit_digitChar hq, isDigit_digitChar hr, rfl⟩
+  · exact ⟨_, _, _, isDigit_digitChar hq, isDigit_digitChar hr, rfl⟩
+
+/-- The signed branch of `readOff?`. -/
+def readOffBody (sg : Char) (r : Str) : Option (Option Int) :=
+  if sg == '+' || sg == '-' then
+    match take2? r with
+    | some (h, ':' :: r1) =>
+      match take2? r1 with
+      | some (mi, []) =>
+        if h < 24 && mi < 60 then
+          let o : Int := h * 3600 + mi * 60
+          some (some (if sg == '-' then -o else o))
+        else none
+      | _ => none
+    | _ => none
+  else none
+
+theorem readOff?_cons (sg : Char) (hsg : sg ≠ 'Z') (r : Str) : readOff? (sg :: r) = readOffBody sg r := by
+  unfold readOff?
+  split
+  · rename_i heq; cases heq
+  · rename_i heq; injection heq with h1 _; exact absurd h1 hsg
+  · rename_i heq; injection heq with h1 h2; subst h1 h2; rfl
+
+theorem readOffBody_pads (sg : Char) (hsg : (sg == '+' || sg == '-') = true) {h mi : Nat}
+    (hh : h < 24) (hmi : mi < 60) :
+    readOffBody sg (pad 2 h ++ ':' :: pad 2 mi)
+      = some (some (if sg == '-' then -((h : Int) * 3600 + (mi : Int) * 60) else (h : Int) * 3600 + (mi : Int) * 60)) := by
+  have t1 := take2?_pad2 (by omega : h < 100) (':' :: pad 2 mi)
+  have t2 := take2?_pad2 (by omega : mi < 100) []
+  rw [List.append_nil] at t2
+  simp only [readOffBody, hsg, if_true, t1, t2, hh, hmi, decide_true, Bool.and_self]
+
+theorem readOff?_offText {off : Int} (hm : off % 60 = 0) (hlo : -86400 < off) (hhi : off < 86400) :
+    readOff? (offText off) = some (some off) := by
+  have h1 : off.natAbs / 3600 < 24 := by omega
+  have h2 : off.natAbs / 60 % 60 < 60 := by omega
+  unfold offText
+  by_cases hneg : off < 0
+  · simp only [hneg, if_true, List.cons_append]
+    rw [readOff?_cons '-' (by decide), readOffBody_pads '-' (by decide) h1 h2]
+    simp only [beq_self_eq_true, if_true]
+    exact congrArg some (congrArg some (by omega))
+  · simp only [hneg, if_false, List.cons_append]
+    rw [readOff?_cons '+' (by decide), readOffBody_pads '+' (by decide) h1 h2]
+    simp only [show ('+' == '-') = false by decide, Bool.false_eq_true, if_false]
+    exact congrArg some (congrArg some (by omega))
+
+theorem tailOk_offText (off : Int) : tailOk (offText off) = true := by
+  unfold offText
+  split <;> rfl
+
+/-- The calendar branch of `parseTemporal?` (texts that are neither numbers nor durations). -/
+def parseCal? (s : Str) : Option Parsed :=
+  match readDate? s with
+  | some (c, []) => if validYMD c then some (.dateOnly (ordOfCivil c)) else none
+  | some (c, 'T' :: r) =>
+    if !validYMD c then none else
+    match readTod? r with
+    | some (tod, r') =>
+      match readOff? r' with
+      | some off =>
+        let o : Int := off.getD 0
+        some (.dateTime (((ordOfCivil c : Int) - epochOrd) * usPerDay + tod - o * usPerSec) off)
+      | none => none
+    | none => none
+  | some _ => none
+  | none =>
+    match readTod? s with
+    | some (tod, r') =>
+      match readOff? r' with
+      | some off => some (.timeOnly tod off)
+      | none => none
+    | none => none
+
+theorem parseTemporal?_digit {c : Char} {r : Str} (hc : isDigit c = true) (had : allDigits (c :: r) = false) :
+    parseTemporal? (c :: r) = parseCal? (c :: r) := by
+  unfold parseTemporal?
+  rw [if_neg (by simp [had])]
+  split
+  · rename_i heq
+    injection heq with h1 _
+    subst h1
+    exact absurd hc (by decide)
+  · rename_i heq
+    injection heq with h1 _
+    subst h1
+    exact absurd hc (by decide)
+  · rfl
+
+theorem readDate?_colon (a b : Char) (r : Str) : readDate? (a :: b :: ':' :: r) = none := by
+  unfold readDate?
+  split
+  · rename_i heq
+    injection heq with _ h2
+    injection h2 with _ h3
+    injection h3 with h4 _
+    subst h4
+    simp [isDigit]
+  · rfl
+
+theorem allDigits_colon (a b : Char) (r : Str) : allDigits (a :: b :: ':' :: r) = false := by
+  simp [allDigits, isDigit]
+
+theorem time_parse {us : Nat} {off : Int} (hus : us < 86400000000) (hm : off % 60 = 0)
+    (hlo : -86400 < off) (hhi : off < 86400) :
+    parseTemporal? (timeText us (some off)) = some (.timeOnly us (some off)) := by
+  have hrd := readTod?_todText hus (offText off) (tailOk_offText off)
+  have hro := readOff?_offText hm hlo hhi
+  obtain ⟨a, b, tl, ha, _, hshape⟩ := todText_shape hus
+  simp only [timeText]
+  rw [hshape] at hrd ⊢
+  simp only [List.cons_append] at hrd ⊢
+  rw [parseTemporal?_digit ha (allDigits_colon a b _)]
+  simp only [parseCal?, readDate?_colon, hrd, hro]
+
+theorem umTime_rt (today : Int) {us : Nat} {off : Int} (hus : us < 86400000000) (hm : off % 60 = 0)
+    (hlo : -86400 < off) (hhi : off < 86400) :
+    umTime today (.str (timeText us (some off))) = .ok (.time us (some off)) := by
+  simp [umTime, secondsOf?, textOf?, time_parse hus hm hlo hhi]
+
+/-! ### The calendar law -/
+
+/-- Civil date of a day number counted from 0000-03-01 (`z = ordinal + 305`). -/
+def civZ (z : Nat) : YMD :=
+  let era := z / 146097
+  let doe := z % 146097
+  let yoe := (doe - doe / 1460 + doe / 36524 - doe / 146096) / 365
+  let y := yoe + era * 400
+  let doy := doe - (365 * yoe + yoe / 4 - yoe / 100)
+  let mp := (5 * doy + 2) / 153
+  let d := doy - (153 * mp + 2) / 5 + 1
+  let m := if mp < 10 then mp + 3 else mp - 9
+  { y := if m ≤ 2 then y + 1 else y, m := m, d := d }
+
+def ordZ (c : YMD) : Nat :=
+  let y := if c.m ≤ 2 then c.y - 1 else c.y
+  let era := y / 400
+  let yoe := y - era * 400
+  let mp := if c.m > 2 then c.m - 3 else c.m + 9
+  let doy := (153 * mp + 2) / 5 + c.d - 1
+  let doe := yoe * 365 + yoe / 4 - yoe / 100 + doy
+  era * 146097 + doe
+
+theorem civilOfOrd_eq (o : Nat) : civilOfOrd o = civZ (o + 305) := rfl
+theorem ordOfCivil_eq (c : YMD) : ordOfCivil c = ordZ c - 305 := rfl
+
+/-- First day (counted from March 1 of year 0 of the era) of the March-based year `y` of an era. -/
+def yStart (y : Nat) : Nat := 365 * y + y / 4 - y / 100
+/-- Last day of the March-based year `y` of an era. -/
+def yEnd (y : Nat) : Nat := if y = 399 then 146096 else yStart (y + 1) - 1
+/-- The year-of-era formula of `civilOfOrd`. -/
+def yoeOf (doe : Nat) : Nat := (doe - doe / 1460 + doe / 36524 - doe / 146096) / 365
+
+def yearOk (y : Nat) : Bool :=
+  yoeOf (yStart y) == y && yoeOf (yEnd y) == y
+    && yEnd y + 1 == yStart y + 365 + (if isLeap (y + 1) then 1 else 0)
+
+def allBelow (p : Nat → Bool) : Nat → Bool
+  | 0 => true
+  | n + 1 => p n && allBelow p n
+
+theorem allBelow_spec {p : Nat → Bool} : ∀ {n}, allBelow p n = true → ∀ k, k < n → p k = true := by
+  intro n
+  induction n with
+  | zero => intro _ k hk; omega
+  | succ n ih =>
+    intro h k hk
+    simp only [allBelow, Bool.and_eq_true] at h
+    by_cases hkn : k = n
+    · subst hkn; exact h.1
+    · exact ih h.2 k (by omega)
+
+theorem years_check : allBelow yearOk 400 = true := by decide +kernel
+
+theorem yearOk_of_lt {y : Nat} (h : y < 400) :
+    yoeOf (yStart y) = y ∧ yoeOf (yEnd y) = y
+      ∧ yEnd y + 1 = yStart y + 365 + (if isLeap (y + 1) then 1 else 0) := by
+  have := allBelow_spec years_check y h
+  simpa [yearOk, and_assoc] using this
+
+theorem yoeOf_mono {a b : Nat} (h : a ≤ b) : yoeOf a ≤ yoeOf b := by
+  unfold yoeOf
+  apply Nat.div_le_div_right
+  have h1 : a - a / 1460 ≤ b - b / 1460 := by omega
+  have h2 : a / 36524 ≤ b / 36524 := Nat.div_le_div_right h
+  have h3 : a / 36524 - a / 146096 ≤ b / 36524 - b / 146096 := by omega
+  omega
+
+theorem yoe_bounds {doe : Nat} (h : doe < 146097) :
+    yoeOf doe ≤ 399 ∧ yStart (yoeOf doe) ≤ doe ∧ doe ≤ yEnd (yoeOf doe) := by
+  have hy : yoeOf doe ≤ 399 := by
+    have := yoeOf_mono (show doe ≤ 146096 by omega)
+    have h399 : yoeOf 146096 = 399 := by decide
+    omega
+  refine ⟨hy, ?_, ?_⟩
+  · apply Classical.byContradiction
+    intro hlt
+    have hlt : doe < yStart (yoeOf doe) := by omega
+    have hpos : 1 ≤ yoeOf doe := by
+      apply Classical.byContradiction
+      intro h0
+      have h0 : yoeOf doe = 0 := by omega
+      rw [h0] at hlt
+      simp [yStart] at hlt
+    obtain ⟨_, he, _⟩ := yearOk_of_lt (y := yoeOf doe - 1) (by omega)
+    have hend : yEnd (yoeOf doe - 1) = yStart (yoeOf doe) - 1 := by
+      unfold yEnd
+      rw [if_neg (by omega), show yoeOf doe - 1 + 1 = yoeOf doe by omega]
+    have := yoeOf_mono (show doe ≤ yEnd (yoeOf doe - 1) by omega)
+    omega
+  · apply Classical.byContradiction
+    intro hgt
+    have hgt : yEnd (yoeOf doe) < doe := by omega
+    by_cases h399 : yoeOf doe = 399
+    · simp [yEnd, h399] at hgt
+      omega
+    · obtain ⟨hs, _, _⟩ := yearOk_of_lt (y := yoeOf doe + 1) (by omega)
+      have hend : yEnd (yoeOf doe) = yStart (yoeOf doe + 1) - 1 := by
+        unfold yEnd
+        rw [if_neg h399]
+      have hpos : 1 ≤ yStart (yoeOf doe + 1) := by unfold yStart; omega
+      have := yoeOf_mono (show yStart (yoeOf doe + 1) ≤ doe by omega)
+      omega
+
+theorem civZ_char (z : Nat) : ∃ y doy mp, y ≤ 399 ∧ yStart y + doy = z % 146097
+    ∧ doy ≤ 364 + (if isLeap (y + 1) then 1 else 0)
+    ∧ 153 * mp ≤ 5 * doy + 2 ∧ 5 * doy + 2 < 153 * mp + 153
+    ∧ civZ z = ⟨(if mp < 10 then y + z / 146097 * 400 else y + z / 146097 * 400 + 1),
+        (if mp < 10 then mp + 3 else mp - 9), doy - (153 * mp + 2) / 5 + 1⟩ := by
+  obtain ⟨hy, hs, he⟩ := yoe_bounds (Nat.mod_lt z (by decide : 0 < 146097))
+  obtain ⟨_, _, hlen⟩ := yearOk_of_lt (y := yoeOf (z % 146097)) (by omega)
+  refine ⟨yoeOf (z % 146097), z % 146097 - yStart (yoeOf (z % 146097)),
+    (5 * (z % 146097 - yStart (yoeOf (z % 146097))) + 2) / 153, hy, by omega, by omega, by omega, by omega, ?_⟩
+  by_cases hmp : (5 * (z % 146097 - yStart (yoeOf (z % 146097))) + 2) / 153 < 10
+  · simp only [hmp, if_true]
+    unfold civZ
+    simp only [yoeOf, yStart] at hmp ⊢
+    simp only [hmp, if_true]
+    rw [if_neg (by omega)]
+  · simp only [hmp, if_false]
+    unfold civZ
+    simp only [yoeOf, yStart] at hmp ⊢
+    simp only [hmp, if_false]
+    rw [if_pos (by omega)]
+
+theorem isLeap_era (y e : Nat) : isLeap (y + e * 400) = isLeap y := by
+  unfold isLeap
+  have h4 : (y + e * 400) % 4 = y % 4 := by omega
+  have h100 : (y + e * 400) % 100 = y % 100 := by omega
+  have h400 : (y + e * 400) % 400 = y % 400 := by omega
+  rw [h4, h100, h400]
+
+theorem civZ_spec (z : Nat) :
+    ordZ (civZ z) = z ∧ 1 ≤ (civZ z).m ∧ (civZ z).m ≤ 12 ∧ 1 ≤ (civZ z).d
+      ∧ (civZ z).d ≤ daysInMonth (civZ z).y (civZ z).m
+      ∧ (306 ≤ z → 1 ≤ (civZ z).y) ∧ (z ≤ 3652364 → (civZ z).y ≤ 9999) := by
+  obtain ⟨y, doy, mp, hy, hz, hdoy, hmp1, hmp2, hc⟩ := civZ_char z
+  have hle : (if isLeap (y + 1) then 1 else 0) ≤ 1 := by split <;> omega
+  have hmp11 : mp ≤ 11 := by omega
+  have he : (y + z / 146097 * 400) / 400 = z / 146097 := by omega
+  rw [hc]
+  unfold yStart at hz
+  by_cases hmp : mp < 10
+  · simp only [hmp, if_true]
+    refine ⟨?_, by omega, by omega, by omega, ?_, by omega, by omega⟩
+    · unfold ordZ
+      simp only []
+      rw [if_neg (by omega), if_pos (by omega)]
+      simp only [Nat.add_sub_cancel, he]
+      have hg : (153 * mp + 2) / 5 ≤ doy := by omega
+      omega
+    · have hcases : mp = 0 ∨ mp = 1 ∨ mp = 2 ∨ mp = 3 ∨ mp = 4 ∨ mp = 5 ∨ mp = 6 ∨ mp = 7 ∨ mp = 8 ∨ mp = 9 := by
+        omega
+      rcases hcases with h | h | h | h | h | h | h | h | h | h <;> subst h <;> simp only [daysInMonth] <;> omega
+  · simp only [hmp, if_false]
+    refine ⟨?_, by omega, by omega, by omega, ?_, by omega, by omega⟩
+    · unfold ordZ
+      simp only []
+      rw [if_pos (by omega), if_neg (by omega)]
+      have h9 : mp - 9 + 9 = mp := by omega
+      simp only [Nat.add_sub_cancel, he, h9]
+      have hg : (153 * mp + 2) / 5 ≤ doy := by omega
+      omega
+    · have hcases : mp = 10 ∨ mp = 11 := by omega
+      rcases hcases with h | h <;> subst h
+      · simp only [daysInMonth]; omega
+      · have hl := isLeap_era (y + 1) (z / 146097)
+        rw [show y + 1 + z / 146097 * 400 = y + z / 146097 * 400 + 1 by omega] at hl
+        simp only [daysInMonth, hl]
+        split <;> simp_all <;> omega
+
+/-- The calendar law the date texts rely on: on the supported range the ordinal ↔ civil-date
+    conversions are mutually inverse and produce valid dates. -/
+structure CalLaw : Prop where
+  ord_civil : ∀ o : Nat, 1 ≤ o → o ≤ 3652059 →
+    ordOfCivil (civilOfOrd o) = o ∧ validYMD (civilOfOrd o) = true
+
+theorem calLaw : CalLaw := by
+  constructor
+  intro o h1 h2
+  obtain ⟨ho, hm1, hm2, hd1, hd2, hy1, hy2⟩ := civZ_spec (o + 305)
+  rw [civilOfOrd_eq, ordOfCivil_eq, ho]
+  refine ⟨by omega, ?_⟩
+  have hy1 := hy1 (by omega)
+  have hy2 := hy2 (by omega)
+  simp [validYMD, hm1, hm2, hd1, hd2, hy1, hy2]
 
 end Typelib
